@@ -315,6 +315,14 @@ def check_traverse(fn, what, bad):
         if types == {'<infeasible>'}:
             continue
         kids = [(k, a) for i, (k, a, st) in enumerate(ps) if i not in marker]
+        if kids:
+            # whatever is expanded was first looked up in - and recorded into - the visited set
+            fresh = [d for d in (dedup_test(s) for s in bp.steps) if d and is_call(d[0], 'id')
+                     and d[0][2:] == (CHILD,) and not d[2]]
+            if not fresh:
+                bad('C15-dedup', f'{what}: children of a {sorted(types & EXPANDABLE) or sorted(types)} node are pushed '
+                                 f'on a path that did not pass the identity test `id(child) in visited`: a shared '
+                                 f'container of that kind is expanded every time it is met')
         if any((not s[2]) and is_call(s[1], 'hasattr') and s[1][2:] == (CHILD, ('CONST', "'_fields'"))
                for s in bp.tests()):
             # an object without a field table has no children
